@@ -10,10 +10,12 @@ import (
 	"bytes"
 	"context"
 	"database/sql"
+	"encoding/base64"
 	"encoding/hex"
 	"encoding/json"
 	"fmt"
 	"io"
+	"math/big"
 	"net/http"
 	"net/http/httptest"
 	"net/url"
@@ -37,6 +39,7 @@ import (
 	"github.com/formancehq/ledger/verifx/vx"
 	sharedapi "github.com/formancehq/stack/libs/go-libs/api"
 	"github.com/formancehq/stack/libs/go-libs/auth"
+	"github.com/formancehq/stack/libs/go-libs/bun/bunpaginate"
 	"github.com/formancehq/stack/libs/go-libs/health"
 	"github.com/formancehq/stack/libs/go-libs/logging"
 	"github.com/formancehq/stack/libs/go-libs/query"
@@ -108,6 +111,16 @@ type Input struct {
 	PIT     string `json:"pit"`     // nil | zero | set
 	Expand  bool   `json:"expand,omitempty"`
 	Tree    Node   `json:"tree"`
+	// Cursor, when set, sends the filter inside a pagination cursor (HTTP) resp. with these paging fields (store)
+	Cursor *CursorSpec `json:"cursor,omitempty"`
+}
+
+// CursorSpec holds the paging fields of bunpaginate's OffsetPaginatedQuery / ColumnPaginatedQuery a client controls.
+type CursorSpec struct {
+	Offset       uint64 `json:"offset"`                 // accounts, balances
+	PaginationID *int64 `json:"paginationID,omitempty"` // transactions, logs
+	Reverse      bool   `json:"reverse,omitempty"`
+	Order        int    `json:"order"` // 0 asc, 1 desc
 }
 
 func (v Val) goValue() any {
@@ -545,6 +558,9 @@ func (h *harness) runStore(in Input, count bool, qb query.Builder) (out outcome)
 		switch in.Listing {
 		case "accounts":
 			q := ledgerstore.NewGetAccountsQuery(ledgerstore.NewPaginatedQueryOptions(pv).WithQueryBuilder(qb))
+			if c := in.Cursor; c != nil {
+				q.Offset, q.Order = c.Offset, bunpaginate.Order(c.Order)
+			}
 			if count {
 				_, err = h.store.CountAccounts(ctx, q)
 			} else {
@@ -552,6 +568,12 @@ func (h *harness) runStore(in Input, count bool, qb query.Builder) (out outcome)
 			}
 		case "transactions":
 			q := ledgerstore.NewGetTransactionsQuery(ledgerstore.NewPaginatedQueryOptions(pv).WithQueryBuilder(qb))
+			if c := in.Cursor; c != nil {
+				q.Reverse, q.Order = c.Reverse, bunpaginate.Order(c.Order)
+				if c.PaginationID != nil {
+					q.PaginationID = big.NewInt(*c.PaginationID)
+				}
+			}
 			if count {
 				_, err = h.store.CountTransactions(ctx, q)
 			} else {
@@ -559,9 +581,18 @@ func (h *harness) runStore(in Input, count bool, qb query.Builder) (out outcome)
 			}
 		case "balances":
 			q := ledgerstore.NewGetAggregatedBalancesQuery(ledgerstore.NewPaginatedQueryOptions(ledgerstore.PITFilter{PIT: h.pit(in.PIT)}).WithQueryBuilder(qb))
+			if c := in.Cursor; c != nil {
+				q.Offset, q.Order = c.Offset, bunpaginate.Order(c.Order)
+			}
 			_, err = h.store.GetAggregatedBalances(ctx, q)
 		case "logs":
 			q := ledgerstore.NewGetLogsQuery(ledgerstore.NewPaginatedQueryOptions[any](nil).WithQueryBuilder(qb))
+			if c := in.Cursor; c != nil {
+				q.Reverse, q.Order = c.Reverse, bunpaginate.Order(c.Order)
+				if c.PaginationID != nil {
+					q.PaginationID = big.NewInt(*c.PaginationID)
+				}
+			}
 			_, err = h.store.GetLogs(ctx, q)
 		}
 	}()
@@ -700,8 +731,55 @@ func (n Node) v2Body() (string, bool) {
 			parts = append(parts, t)
 		}
 		return fmt.Sprintf(`{"$%s":[%s]}`, n.T, strings.Join(parts, ",")), true
+	case "not":
+		if len(n.Items) == 1 {
+			if t, ok := n.Items[0].v2Body(); ok {
+				return `{"$not":` + t + `}`, true
+			}
+		}
 	}
 	return "", false
+}
+
+// cursorText builds the cursor a client would send for the listing: the JSON bunpaginate encodes for the real query
+// type (so the layout follows the code), with the filter `body` put in the place of a placeholder filter.
+func (h *harness) cursorText(in Input, body string) (string, bool) {
+	const ph = "verifQBplaceholder"
+	qb := query.Match(ph, "x")
+	c := in.Cursor
+	pv := ledgerstore.PITFilterWithVolumes{PITFilter: ledgerstore.PITFilter{PIT: h.pit(in.PIT)}, ExpandVolumes: in.Expand, ExpandEffectiveVolumes: in.Expand}
+	var enc string
+	switch in.Listing {
+	case "accounts":
+		q := ledgerstore.NewGetAccountsQuery(ledgerstore.NewPaginatedQueryOptions(pv).WithQueryBuilder(qb))
+		q.Offset, q.Order = c.Offset, bunpaginate.Order(c.Order)
+		enc = bunpaginate.EncodeCursor(q)
+	case "transactions":
+		q := ledgerstore.NewGetTransactionsQuery(ledgerstore.NewPaginatedQueryOptions(pv).WithQueryBuilder(qb))
+		q.Reverse, q.Order = c.Reverse, bunpaginate.Order(c.Order)
+		if c.PaginationID != nil {
+			q.PaginationID = big.NewInt(*c.PaginationID)
+		}
+		enc = bunpaginate.EncodeCursor(q)
+	case "logs":
+		q := ledgerstore.NewGetLogsQuery(ledgerstore.NewPaginatedQueryOptions[any](nil).WithQueryBuilder(qb))
+		q.Reverse, q.Order = c.Reverse, bunpaginate.Order(c.Order)
+		if c.PaginationID != nil {
+			q.PaginationID = big.NewInt(*c.PaginationID)
+		}
+		enc = bunpaginate.EncodeCursor(q)
+	default:
+		return "", false
+	}
+	raw, err := base64.RawURLEncoding.DecodeString(enc)
+	if err != nil {
+		return "", false
+	}
+	phJSON := `{"$match":{"` + ph + `":"x"}}`
+	if strings.Count(string(raw), phJSON) != 1 {
+		return "", false // the cursor does not carry the filter in the ParseJSON syntax
+	}
+	return base64.RawURLEncoding.EncodeToString([]byte(strings.Replace(string(raw), phJSON, body, 1))), true
 }
 
 // v1 query parameters derivable from the leaves (at most one metadata parameter: the handler iterates a Go map),
@@ -795,7 +873,7 @@ type httpCall struct {
 	tbody             string
 }
 
-func httpCalls(in Input, tw Node) []httpCall {
+func (h *harness) httpCalls(in Input, tw Node) []httpCall {
 	var calls []httpCall
 	paths := map[string][]string{"accounts": {"/accounts"}, "transactions": {"/transactions"}, "balances": {"/aggregate/balances"}, "logs": {"/logs"}}[in.Listing]
 	logsOK := true
@@ -808,6 +886,26 @@ func httpCalls(in Input, tw Node) []httpCall {
 	}
 	body, ok := in.Tree.v2Body()
 	tbody, tok := tw.v2Body()
+	if in.Cursor != nil {
+		if !ok || !tok || !logsOK {
+			return nil
+		}
+		cur, ok1 := h.cursorText(in, body)
+		tcur, ok2 := h.cursorText(in, tbody)
+		if !ok1 || !ok2 {
+			return nil
+		}
+		q, t := url.Values{}, url.Values{}
+		q.Set("cursor", cur)
+		t.Set("cursor", tcur)
+		for _, p := range paths {
+			calls = append(calls, httpCall{"v1-cursor", http.MethodGet, p, q, "", t, ""}, httpCall{"v2-cursor", http.MethodGet, p, q, "", t, ""})
+		}
+		if in.Listing == "accounts" {
+			calls = append(calls, httpCall{"v1-cursor", http.MethodGet, "/balances", q, "", t, ""})
+		}
+		return calls
+	}
 	if ok && tok && logsOK {
 		q := url.Values{}
 		if in.PIT == "set" || in.Listing != "logs" {
@@ -849,7 +947,7 @@ func httpCalls(in Input, tw Node) []httpCall {
 }
 
 func (h *harness) router(via string) chi.Router {
-	if via == "v1" {
+	if strings.HasPrefix(via, "v1") {
 		return h.v1r
 	}
 	return h.v2r
@@ -1198,7 +1296,11 @@ func (h *harness) one(r *vx.Run, in Input, emit bool) {
 		}
 		if clause, detail := judge(a, b); clause != "" {
 			count := count
-			fail(clause, variant, "store", detail, func(ci Input) (outcome, outcome, bool) {
+			via := "store"
+			if in.Cursor != nil {
+				via = "store-cursor"
+			}
+			fail(clause, variant, via, detail, func(ci Input) (outcome, outcome, bool) {
 				return h.runStore(ci, count, ci.Tree.builder()), h.runStore(ci, count, twin(ci.Listing, ci.Tree).builder()), true
 			})
 		}
@@ -1207,7 +1309,7 @@ func (h *harness) one(r *vx.Run, in Input, emit bool) {
 		r.Case(h.coqCase(r, in, tw, count, variant, cc, emit), map[string]any{"input": in, "variant": variant}, string(key)+variant, nontrivial)
 	}
 	// through the HTTP handlers
-	for _, c := range httpCalls(in, tw) {
+	for _, c := range h.httpCalls(in, tw) {
 		a := h.runHTTP(h.router(c.via), c.method, c.path, c.q, c.body)
 		b := h.runHTTP(h.router(c.via), c.method, c.path, c.tq, c.tbody)
 		r.Count("http:" + c.via)
@@ -1219,7 +1321,7 @@ func (h *harness) one(r *vx.Run, in Input, emit bool) {
 			}
 			c := c
 			fail(clause, variant, c.via, detail+fmt.Sprintf(" [%s %s?%s body=%q]", c.method, c.path, c.q.Encode(), c.body), func(ci Input) (outcome, outcome, bool) {
-				for _, x := range httpCalls(ci, twin(ci.Listing, ci.Tree)) {
+				for _, x := range h.httpCalls(ci, twin(ci.Listing, ci.Tree)) {
 					if x.via == c.via && x.method == c.method && x.path == c.path && (x.body == "") == (c.body == "") && (x.q.Get("query") == "") == (c.q.Get("query") == "") {
 						return h.runHTTP(h.router(x.via), x.method, x.path, x.q, x.body), h.runHTTP(h.router(x.via), x.method, x.path, x.tq, x.tbody), true
 					}
@@ -1372,6 +1474,58 @@ func genTree(g *vx.Rng, listing string, depth int, long bool) Node {
 
 var listings = []string{"accounts", "transactions", "balances", "logs"}
 
+// cursorVariants: the paging fields a forged cursor can carry, for the listing's pagination kind
+func cursorVariants(listing string) []CursorSpec {
+	var out []CursorSpec
+	if listing == "accounts" || listing == "balances" {
+		for _, off := range []uint64{0, 1, 15, 1000} {
+			for _, ord := range []int{0, 1} {
+				out = append(out, CursorSpec{Offset: off, Order: ord})
+			}
+		}
+		return out
+	}
+	ids := []*int64{nil}
+	for _, v := range []int64{0, 1, 15, 1000} {
+		v := v
+		ids = append(ids, &v)
+	}
+	for _, id := range ids {
+		for _, rev := range []bool{false, true} {
+			for _, ord := range []int{0, 1} {
+				out = append(out, CursorSpec{PaginationID: id, Reverse: rev, Order: ord})
+			}
+		}
+	}
+	return out
+}
+
+// the same input carried by a cursor; k selects the variant
+func withCursor(in Input, k int) Input {
+	vs := cursorVariants(in.Listing)
+	c := vs[k%len(vs)]
+	in.Cursor = &c
+	return in
+}
+
+// probeColumn records (without judging: the column of a cursor is not a list filter) what a forged `column` of a
+// column-paginated cursor does to the statement.
+func (h *harness) probeColumn(r *vx.Run) {
+	q := ledgerstore.NewGetTransactionsQuery(ledgerstore.NewPaginatedQueryOptions(ledgerstore.PITFilterWithVolumes{}))
+	q.Column = "id desc, (select zq1) --"
+	u := url.Values{}
+	u.Set("cursor", bunpaginate.EncodeCursor(q))
+	for _, via := range []string{"v1", "v2"} {
+		o := h.runHTTP(h.router(via), http.MethodGet, "/transactions", u, "")
+		if o.rejected() {
+			r.Sum.Notes = append(r.Sum.Notes, "observation (not judged under C20): "+via+" /transactions with a forged cursor column is rejected: "+o.Err)
+			continue
+		}
+		sr := scanSQL(o.one())
+		r.Sum.Notes = append(r.Sum.Notes, fmt.Sprintf("observation (not judged under C20): %s /transactions?cursor= with column %q sends %q (comment reached: %v)", via, q.Column, o.one(), sr.comment))
+	}
+}
+
 func main() {
 	r := vx.Start("C20", "sqltext")
 	if f, err := os.Create(filepath.Join(r.Out, "stderr.log")); err == nil { // bun and logrus write warnings to stderr
@@ -1380,6 +1534,7 @@ func main() {
 	r.Cases("From FL Require Import SqlText.Model.\n", "case", 300)
 	r.Sum.Rule = "filter trees ($match/$lt/$lte/$gt/$gte/and/or/not) over every key of each listing (address, account, source, destination, metadata[..], balance[..], balance, reference, timestamp, date, unknown keys) with hostile values (quotes, backslashes, ?, ?(, \\?, $1, --, /* */, NUL, newlines, invalid UTF-8, non-ASCII, long, nested JSON) sent through GetAccountsWithVolumes, CountAccounts, GetTransactions, CountTransactions, GetAggregatedBalances, GetLogs of the real store over a recording driver and through the real v1/v2 handlers; non-trivial = accepted by the store and some client string contains a quote, backslash or ?; distinct by the JSON of the input and list/count"
 	h := newHarness()
+	h.probeColumn(r)
 	docs, replayOnly := r.Inputs()
 	for _, d := range docs {
 		var in Input
@@ -1412,10 +1567,21 @@ func main() {
 					in := Input{Listing: l, PIT: []string{"nil", "set", "zero"}[(hi+oi)%3], Tree: Node{T: "leaf", Key: BStr(k), Op: op, Val: &Val{K: "str", S: BStr(s)}}}
 					h.one(r, in, r.Thorough() || nsys%2 == 0)
 					nsys++
+					// the same filter carried by a pagination cursor: one paging variant per input, all of them for
+					// the keys whose value is formatted into the statement
+					if keyClass(l, k) == "addr" && oi == 0 {
+						for v := range cursorVariants(l) {
+							h.one(r, withCursor(in, v), (r.Thorough() || nsys%2 == 0) && v%8 == 3)
+						}
+					} else {
+						h.one(r, withCursor(in, nsys), r.Thorough() && nsys%4 == 0)
+					}
 					// the same string as a metadata key / asset
 					if hi%3 == 0 && strings.Contains(k, "[") && oi == 0 {
 						kk := k[:strings.Index(k, "[")] + "[" + s + "]"
-						h.one(r, Input{Listing: l, PIT: "nil", Tree: Node{T: "leaf", Key: BStr(kk), Op: op, Val: &Val{K: "str", S: "v"}}}, r.Thorough() || nsys%2 == 0)
+						ik := Input{Listing: l, PIT: "nil", Tree: Node{T: "leaf", Key: BStr(kk), Op: op, Val: &Val{K: "str", S: "v"}}}
+						h.one(r, ik, r.Thorough() || nsys%2 == 0)
+						h.one(r, withCursor(ik, nsys), false)
 					}
 				}
 			}
@@ -1436,6 +1602,7 @@ func main() {
 			emit = i%8 == 0
 		}
 		h.one(r, in, emit)
+		h.one(r, withCursor(in, i), emit && i%4 == 0)
 	}
 	r.Finish()
 }
